@@ -51,7 +51,8 @@ public:
 		file_size_(0),
 		read_offset_(0),
 		closed_(false),
-		created_(false)
+		created_(false),
+		failed_(false)
 	{
 		setp(0,0);
 		setg(0,0,0);
@@ -310,13 +311,17 @@ protected:
 			return 0;
 		if(write_buffer()!=0)
 			return -1;
-		if(fflush(f_)!=0)
+		if(fflush(f_)!=0) {
+			failed_ = true;
 			return -1;
+		}
 		return 0;
 	}
 	int write_buffer()
 	{
-		if(closed_)
+		// once a write has failed the content of the file is unknown (a part of the
+		// buffer may have reached it): a later retry must not append the buffer again
+		if(closed_ || failed_)
 			return -1;
 		if(!f_) {
 			get_name();
@@ -325,11 +330,15 @@ protected:
 				return -1;
 			created_ = true;
 		}
-		if(fseek(f_,0,SEEK_END) !=0)
+		if(fseek(f_,0,SEEK_END) !=0) {
+			failed_ = true;
 			return -1;
+		}
 		size_t size = pptr()-pbase();
-		if(size != 0 && fwrite(pbase(),1,size,f_)!=size)
+		if(size != 0 && fwrite(pbase(),1,size,f_)!=size) {
+			failed_ = true;
 			return -1;
+		}
 		file_size_ += size;
 		setp(pbase(),epptr());
 		return 0;
@@ -352,6 +361,7 @@ private:
 	std::string name_;
 	bool closed_;
 	bool created_;
+	bool failed_;
 };
 
 } // impl
